@@ -74,8 +74,13 @@ pub fn profile_for(prop: &str, _tier: &str) -> Profile {
             p.extra_vamm_pct = 50;
             p.mismatch_decimals_pct = 80;
         }
+        "C04" | "C03" => {
+            p.w_macro = [0, 4, 3, 2, 5, 1, 3, 1, 2, 2, 1];
+            p.pyramid_pct = 80;
+        }
         "C06" | "C07" => {
-            p.w_macro = [0, 14, 3, 1, 2, 0, 1, 0, 0, 0, 0];
+            p.w_macro = [0, 12, 3, 1, 8, 0, 1, 0, 0, 0, 0];
+            p.pyramid_pct = 90;
             p.macro_pct = 25;
             if prop == "C07" {
                 p.feed_real_pct = 30;
